@@ -147,10 +147,10 @@ func (w *witness) slotAt(n *node.Node, num uint64) (string, error) {
 func TestKnownCrashBetweenPruneCommits(t *testing.T) {
 	runWitness(t, kfCrashMidPrune, func() bool {
 		w := newWitness()
-		var image *memory.Database
+		var image imageDB
 		w.d.arm(func(k int) {
 			if k == 1 {
-				image = w.d.inner.Copy()
+				image = w.d.inner.Image()
 			}
 		})
 		if _, _, err := pruner.PruneUpto(context.Background(), w.d, 10, witnessBatchDefault); err != nil {
@@ -161,7 +161,7 @@ func TestKnownCrashBetweenPruneCommits(t *testing.T) {
 		if image == nil {
 			abortWitness("witness: PruneUpto made no commit")
 		}
-		n := w.restartOn(newFdb(image))
+		n := w.restartOn(newFdbOn(image))
 		oldestBlk, _, _ := oldest(n.DB)
 		retained3 := pruner.RequireRetained(n.DB, 3)
 		_, errByHash := n.BC.BlockNumberByHash(w.ch.Blocks[3].B.Hash)
@@ -210,10 +210,10 @@ func TestKnownCancelledPruneDropsParentMapping(t *testing.T) {
 		cancelRepro := kept > 0 && kept < 10 && oa == kept && numA == nil && errors.Is(hashA, db.ErrKeyNotFound)
 		// (b) crash image after the third commit
 		w2 := newWitness()
-		var image *memory.Database
+		var image imageDB
 		w2.d.arm(func(k int) {
 			if k == 3 {
-				image = w2.d.inner.Copy()
+				image = w2.d.inner.Image()
 			}
 		})
 		if _, _, err := pruner.PruneUpto(context.Background(), w2.d, 10, 1); err != nil {
@@ -224,7 +224,7 @@ func TestKnownCancelledPruneDropsParentMapping(t *testing.T) {
 		var ob uint64
 		var numB, hashB error
 		if image != nil {
-			ob, numB, hashB = check(w2, newFdb(image))
+			ob, numB, hashB = check(w2, newFdbOn(image))
 			crashRepro = ob > 0 && ob < 10 && numB == nil && errors.Is(hashB, db.ErrKeyNotFound)
 		}
 		t.Logf("%s: cancelled at commit 3: oldest kept %d, state at %d by number: %v, by hash: %v (reproduced=%v); crash image after commit 3: oldest kept %d, by number: %v, by hash: %v (reproduced=%v)",
